@@ -89,6 +89,7 @@ def main():
     ap.add_argument("--skip-confirm", action="store_true")
     ap.add_argument("--target", default="/tmp/seedeval-target")
     args = ap.parse_args()
+    args.src = os.path.abspath(args.src)
     out = {"id": args.sid, "src": args.src}
     if not args.skip_confirm:
         out["confirm"] = confirm(args.src, args.sid, args.target)
